@@ -243,7 +243,8 @@ def t4_literals(ctx):
     r.anchor(e, "encode arm PushB")
     ws = [sig(w[1]) for w in e["writes"]]
     r.check(ws == ["array(OPCODE_PUSHB)", "array((Vec::len(($1 as PushB).0) as u8))", "($1 as PushB).0"], "PushB/encode", "opcode, length byte, bytes", "PushB encode writes %s" % ws)
-    guard = [(cb, c) for cb, c in e["cond"] if sig(c) in ("Gt(Vec::len(($1 as PushB).0), 255)", "Lt(255, Vec::len(($1 as PushB).0))")]
+    # `len > 255 ⇒ Err` or `len <= 255 ⇒ write, else Err`: the same test in either polarity
+    guard = [(cb, x) for cb, c in e["cond"] for x, cx in q.atom_forms(c) if cx == "Lt(255, Vec::len(($1 as PushB).0))"]
     r.check(len(guard) == 1, "PushB/guard", "length > 255 is tested", "PushB encode does not test length > 255 (length byte would wrap)")
     if guard:
         f = force(eb, {guard[0][1]: 1})
